@@ -3240,3 +3240,132 @@ func ruleHashFoldAll(w *World, r *Report, nt *nodeTypes) {
 		r.Ok(rule, nt.tag+":fold-writes-every-element", "-", "no shared digest fold reached from the multiset digest or identity hashing: this clause makes no claim (not decided)")
 	}
 }
+
+// ruleIdentBinds — clause of R-HASHMOVE for identity hashing (SetKeys with
+// more than one key; C01 "every array-member object carrying all k", C05, C08).
+// The identity of a keyed member is a digest over the values found under the
+// key names. Each such value must reach the digest *together with its key*:
+// the key string itself (not merely its use as a map index) must flow into the
+// returned digest. If only the values do — and the fold sorts them — the
+// identity does not say which value belongs to which key, and
+// {"a":1,"b":2} and {"a":2,"b":1} are one member.
+func ruleIdentBinds(w *World, r *Report, pkg *ssa.Package, tag string) {
+	const rule = "R-HASHMOVE"
+	n := 0
+	for _, fn := range w.FuncsOf(pkg) {
+		name := canonFnName(fn)
+		if name != "ident" && name != "pathIdent" {
+			continue
+		}
+		if len(fn.Params) == 0 {
+			continue
+		}
+		if _, isMap := fn.Params[0].Type().Underlying().(*types.Map); !isMap {
+			continue
+		}
+		d := NewDeriv(w, fn)
+		vis := map[ssa.Value]bool{}
+		for _, ret := range returnsOf(fn) {
+			for _, res := range ret.Results {
+				for v := range d.Visited(res) {
+					vis[v] = true
+				}
+			}
+		}
+		unbound := ""
+		k := 0
+		allInstrs(fn, func(in ssa.Instruction) {
+			lk, ok := in.(*ssa.Lookup)
+			if !ok || strip(lk.X) != ssa.Value(fn.Params[0]) {
+				return
+			}
+			// does the looked-up value reach the digest?
+			reaches := vis[lk]
+			if lk.Referrers() != nil {
+				for _, ref := range *lk.Referrers() {
+					if ex, ok := ref.(*ssa.Extract); ok && ex.Index == 0 && vis[ex] {
+						reaches = true
+					}
+				}
+			}
+			if !reaches {
+				return
+			}
+			if _, isConst := lk.Index.(*ssa.Const); isConst {
+				return
+			}
+			k++
+			if !vis[lk.Index] && !vis[strip(lk.Index)] {
+				unbound = w.Pos(lk.Pos())
+			}
+		})
+		if k == 0 {
+			continue
+		}
+		n++
+		r.Fn(fnName(fn))
+		r.Check(unbound == "", rule, fnName(fn)+":keys-bound-to-values", w.Pos(fn.Pos()),
+			"every value the identity is built from reaches the digest together with the key it was found under",
+			"a value looked up by key (at "+unbound+") reaches the identity digest without its key: the identity does not say which value belongs to which key, so members whose key values are permuted ({\"a\":1,\"b\":2} / {\"a\":2,\"b\":1}) count as the same member")
+	}
+	if n == 0 {
+		r.Ok(rule, tag+":identity-keys-bound", "-", "no identity function that looks values up by key: this clause makes no claim (not decided)")
+	}
+}
+
+// ruleHunkRaw — R-HUNKRAW (C01 under SET / MULTISET: "any shape", so also an
+// array replaced by a non-array). A hunk that replaces a whole array is
+// checked, when it is applied, against the target read *without* the set
+// options — the hunk's path carries no set marker at its end — i.e. against a
+// list. Equals between a list and a set/multiset *view* of the same array is
+// false (views are distinct node types), so a diff function of the set or the
+// multiset must put the raw array into the hunk, never its own view.
+func ruleHunkRaw(w *World, r *Report, pkg *ssa.Package, tag string) {
+	const rule = "R-HUNKRAW"
+	n := 0
+	for _, fn := range w.FuncsOf(pkg) {
+		if fn.Signature.Recv() == nil || !diffSide(fn) {
+			continue
+		}
+		rt := typeName(fn.Signature.Recv().Type())
+		if rt != "jsonSet" && rt != "jsonMultiset" {
+			continue
+		}
+		recv := fn.Params[0]
+		d := NewDeriv(w, fn)
+		k := 0
+		allInstrs(fn, func(in ssa.Instruction) {
+			st, ok := in.(*ssa.Store)
+			if !ok {
+				return
+			}
+			fa, ok := st.Addr.(*ssa.FieldAddr)
+			if !ok {
+				return
+			}
+			name := fieldName(fa.X.Type(), fa.Field)
+			if name != "Remove" && name != "Add" {
+				return
+			}
+			view := ""
+			for v := range d.Visited(st.Val) {
+				mi, ok := v.(*ssa.MakeInterface)
+				if !ok {
+					continue
+				}
+				if strip(mi.X) == ssa.Value(recv) && typeName(mi.X.Type()) == rt {
+					view = w.Pos(mi.Pos())
+				}
+			}
+			k++
+			n++
+			r.Fn(fnName(fn))
+			r.Check(view == "", rule, fmt.Sprintf("%s:%s#%d", fnName(fn), name, k), w.Pos(st.Pos()),
+				"the hunk value does not contain the receiver as a "+rt+" view",
+				"the receiver is stored into the hunk as a "+rt+" view (at "+view+"): when the hunk is applied the target at that path is read as a list (no set marker follows), and a list never Equals a "+rt+" view — the diff of an array and a non-array does not apply to the document it was made from")
+		})
+	}
+	if n == 0 {
+		r.Ok(rule, tag+":hunk-values", "-", "no hunk value stores found in the set / multiset diffs: this rule makes no claim (not decided)")
+	}
+}
